@@ -45,6 +45,12 @@ CLAIMED = {
          "All 64 requirement-set combinations in three letter cases through the three container construction routes, with "
          "correctly signed requests that omit required headers from the list; container operation sequences are checked "
          "against a case-insensitive set model (C08 run).", "5 C05"),
+ "C07": ("CtEq.tla 2-safety (self-composition) model-checked; ptrace instruction-address traces of the real validation judged by Trace_Det",
+         "The comparator model satisfies non-interference (and the early-exit control violates it). On the implementation, a "
+         "forked child builds a signed request whose signature first differs at position p (same character class), stops, "
+         "and is single-stepped under ptrace through sigv4_validate_request; in-image instruction count and address digest "
+         "must be identical for every p (quick 9 positions + control, thorough all 64 x 3 requests x 2 keys), for lower-case "
+         "guesses, upper-case guesses and with a Trace-level logger installed.", "5 C07"),
  "C08": ("totality: a panic event matches no action of any trace specification; size ladder, charset labels, degenerate inputs, seeded fuzz",
          "Panics are caught at the harness boundary and logged as data; no trace specification has an action for them. "
          "Covers the URI-length ladder around 65534, every charset label, secrets x capacities, the error table, builders, "
@@ -82,8 +88,7 @@ CLAIMED = {
          "valid.", "5 C19"),
 }
 
-NOT_YET = {"C07": "the ptrace instruction-trace check (CtEq.tla model + conform ctrace) is being calibrated; not registered until its "
-                  "measurement is stable on the unchanged tree"}
+NOT_YET = {}
 
 def main():
     checks = []
